@@ -1,12 +1,13 @@
 #!/bin/sh
-# apply one catalogue mutant to /repo (restore with: git -C /repo checkout -- .)
+# apply one catalogue mutant to the tree in $TREE (default /repo; restore with: git -C $TREE checkout -- .)
 python3 - "$1" <<'PY'
 import sys
 sys.path.insert(0,'/verif/selftest')
 import mutants
 for id,f,old,new,count in mutants.M:
     if id==sys.argv[1]:
-        p='/repo/'+f; s=open(p).read(); assert s.count(old)==count, s.count(old)
+        import os
+        p=os.environ.get('TREE','/repo')+'/'+f; s=open(p).read(); assert s.count(old)==count, s.count(old)
         s=s.replace(old,new)
         if id=='M30': s=s.replace('\tshouldStop := false\n','\tshouldStop := false\n\tdone := 0\n')
         open(p,'w').write(s); print('applied',id)
